@@ -16,7 +16,7 @@ RULE = ("one evaluation = one (plaintext length, key, kind) encrypt/decrypt pair
 ASSUMPTIONS = ["`cryptography`'s AES-CBC primitive and hashlib's HMAC-SHA256 are trusted",
                "the reference implementation is anchored on the real-world (key, plaintext, ciphertext) triple frozen in data/mediacipher_vector.json",
                "an accepted forgery that decrypts to the same plaintext would not be flagged (80-bit MAC: does not occur)"]
-REQUIRED = ["roundtrip_cases", "aligned_or_empty", "tamper_cases", "tamper_rejected", "anchor_ok", "wrapper_cases", "consumer_cases", "consumer_ok", "consumer_empty_ok", "consumer_tamper_rejected"]
+REQUIRED = ["concurrent_cases", "concurrent_ok", "concurrent_yields", "roundtrip_cases", "aligned_or_empty", "tamper_cases", "tamper_rejected", "anchor_ok", "wrapper_cases", "consumer_cases", "consumer_ok", "consumer_empty_ok", "consumer_tamper_rejected"]
 
 KINDS = {"image": b"WhatsApp Image Keys", "audio": b"WhatsApp Audio Keys", "video": b"WhatsApp Video Keys",
          "document": b"WhatsApp Document Keys"}
@@ -255,6 +255,67 @@ def consumer_case(acc, r, kind, n, tamper=False):
         shutil.rmtree(d, ignore_errors=True)
 
 
+def concurrent_case(acc, seed, tag):
+    """One MediaCipher object used by several threads at once (a downloader per chat, say), each with its own keys and kinds, with
+    thread switches injected inside mediacipher.py: every call returns what it returns alone."""
+    import threading, random as _random
+    from vf import inject
+    from yowsup.layers.protocol_media.mediacipher import MediaCipher
+    r = gen.rng(seed, ID, tag)
+    mc = MediaCipher()
+    acc.count("concurrent_cases")
+    problems = []
+    done = [0]
+    lock = threading.Lock()
+
+    def worker(k, rr):
+        for i in range(25):
+            kind = rr.choice(KIND_NAMES)
+            info = getattr(MediaCipher, "INFO_" + {"image": "IMAGE", "audio": "AUDIO", "video": "VIDEO", "document": "DOCUM"}[kind])
+            key = gen.blob(rr, 32)
+            pt = plaintext(rr, rr.choice([0, 1, 15, 16, 17, rr.randint(0, 300), rr.randint(0, 5000)]))
+            try:
+                ct = getattr(mc, "encrypt_" + kind)(pt, key)
+                if bytes(ct) != ref_encrypt(pt, key, info):
+                    problems.append(("encrypt-differs", kind, len(pt)))
+                    return
+                back = getattr(mc, "decrypt_" + kind)(ref_encrypt(pt, key, info), key)
+                if bytes(back) != pt:
+                    problems.append(("decrypt-differs", kind, len(pt)))
+                    return
+                bad_ct = bytearray(ref_encrypt(pt, key, info))
+                bad_ct[rr.randrange(len(bad_ct))] ^= 1 << rr.randrange(8)
+                try:
+                    out = getattr(mc, "decrypt_" + kind)(bytes(bad_ct), key)
+                    if bytes(out) != pt:
+                        problems.append(("tamper-accepted", kind, len(pt)))
+                        return
+                except Exception:
+                    pass
+            except Exception as e:  # noqa
+                problems.append(("raises:" + type(e).__name__, kind, len(pt)))
+                return
+            with lock:
+                done[0] += 1
+    ths = [threading.Thread(target=worker, args=(k, _random.Random(r.randrange(1 << 30))), name="verif-cipher-%d" % k) for k in range(4)]
+    yi = inject.YieldInjector(_random.Random(r.randrange(1 << 30)), ("protocol_media/mediacipher.py",), p=0.4)
+    with yi:
+        for t in ths:
+            t.daemon = True
+            t.start()
+        for t in ths:
+            t.join(60)
+    acc.count("concurrent_yields", yi.yields)
+    acc.count("concurrent_calls_ok", done[0])
+    acc.case(["conc", tag], nontrivial=True)
+    if problems:
+        what, kind, n = problems[0]
+        acc.violation("concurrent:%s" % what, "one MediaCipher object used by 4 threads at once: %s for a %s payload of %d bytes (alone, the same call is correct)" % (what, kind, n),
+                      {"op": "concurrent", "tag": tag})
+    else:
+        acc.count("concurrent_ok")
+
+
 def keys_for(seed, n):
     r = gen.rng(seed, ID, "keys")
     return [gen.blob(r, 32) for _ in range(n)]
@@ -273,6 +334,8 @@ def shards(tier, seed, nworkers):
         specs.append({"kind": "tamper", "lens": lens[i::nsh], "flips": [1, 0x80, 0xFF] if tier == "quick" else "all<=32"})
     specs.append({"kind": "random", "n": 150 if tier == "quick" else 3000, "maxlen": 1 << 20})
     specs.append({"kind": "consumer", "n": 40 if tier == "quick" else 2000})
+    for k in range(1 if tier == "quick" else 8):
+        specs.append({"kind": "concurrent", "rep": k, "n": 6 if tier == "quick" else 60})
     return specs
 
 
@@ -281,6 +344,11 @@ def run(spec, acc):
     seed = spec["seed"]
     mc = MediaCipher()
     if not anchor(acc):
+        return
+    if spec["kind"] == "concurrent":
+        for i in range(spec["n"]):
+            concurrent_case(acc, seed, "conc/%d/%d" % (spec["rep"], i))
+        acc.sample({"concurrent": "4 threads share one MediaCipher object, thread switches injected at 40% of the line events in mediacipher.py"})
         return
     if spec["kind"] == "consumer":
         for kind in ("image", "audio", "video", "document"):
